@@ -13,7 +13,7 @@
 #define MAXPIX (3 * 3 * 3 * 2)
 H4V_IN_ARR(uint8_t, pay, 2 * MAXPIX);
 H4V_IN_ARR(uint8_t, fillv, 3 * 2);
-H4V_IN_ARR(uint8_t, lut, 3 * 4);
+H4V_IN_ARR(uint8_t, lut, 3 * 256);
 
 static uint8 G[H][W][NCOMP][ES]; /* ghost image */
 static uint8 Gdef[H][W];         /* pixel defined (written or filled) */
@@ -60,7 +60,7 @@ void harness(void)
 {
     int32 f, gr, ri, dims[2], ref, idx;
     int   x, y, c, b;
-    H4V_GET_ARR(pay, 2 * MAXPIX); H4V_GET_ARR(fillv, 6); H4V_GET_ARR(lut, 12);
+    H4V_GET_ARR(pay, 2 * MAXPIX); H4V_GET_ARR(fillv, 6); H4V_GET_ARR(lut, 768);
     f = Hopen("t.hdf", DFACC_CREATE, 16);
     H4V_ASSERT(f != FAIL, "C09.S1.open");
     gr = GRstart(f);
@@ -77,7 +77,7 @@ void harness(void)
     {
         int32 lid = GRgetlutid(ri, 0);
         H4V_ASSERT(lid != FAIL, "C09.S1.lutid");
-        H4V_ASSERT(GRwritelut(lid, 3, DFNT_UINT8, MFGR_INTERLACE_PIXEL, 4, lut) == SUCCEED, "C09.S1.writelut");
+        H4V_ASSERT(GRwritelut(lid, 3, DFNT_UINT8, MFGR_INTERLACE_PIXEL, 256, lut) == SUCCEED, "C09.S1.writelut");
     }
 #endif
 #if SECOND
@@ -109,14 +109,14 @@ void harness(void)
 #if LUT
     {
         int32 lid = GRgetlutid(ri, 0), nc, nt, il, ne;
-        uint8 lo[16];
+        static uint8 lo[772];
         int   i;
         H4V_ASSERT(lid != FAIL && GRgetlutinfo(lid, &nc, &nt, &il, &ne) == SUCCEED, "C09.S1.lutinfo");
-        H4V_ASSERT(nc == 3 && nt == DFNT_UINT8 && ne == 4, "C09.S1.lutinfo.values");
-        for (i = 0; i < 16; i++) lo[i] = 0x6B;
+        H4V_ASSERT(nc == 3 && nt == DFNT_UINT8 && ne == 256, "C09.S1.lutinfo.values");
+        for (i = 0; i < 772; i++) lo[i] = 0x6B;
         H4V_ASSERT(GRreadlut(lid, lo) == SUCCEED, "C09.S1.readlut");
-        for (i = 0; i < 12; i++) H4V_ASSERT(lo[i] == lut[i], "C09.S1.lut: palette entry read differs from the entry written");
-        for (i = 12; i < 16; i++) H4V_ASSERT(lo[i] == 0x6B, "C09.S1.lut.overrun");
+        for (i = 0; i < 768; i++) H4V_ASSERT(lo[i] == lut[i], "C09.S1.lut: palette entry read differs from the entry written");
+        for (i = 768; i < 772; i++) H4V_ASSERT(lo[i] == 0x6B, "C09.S1.lut.overrun");
     }
 #endif
     H4V_ASSERT(GRendaccess(ri) == SUCCEED, "C09.S1.endaccess2");
